@@ -699,6 +699,11 @@ class Discharger:
                         parent = next((b_ for b_ in self.unit.bodies if b_.path == s.body.parent_fn or b_.npath == facts.strip_generics(s.body.parent_fn)), None)
                         if parent is not None and self.per_item_counters(parent) and s.body.path in self._pic.get(("closures", parent.npath), ()):
                             return "I9 counter incremented once per item of an iterator over a slice (at most len(slice) <= isize::MAX increments from a small constant)"
+                    if b[1] == 1 and s.body.kind == "Closure" and t["ops"][0]["k"] in ("copy", "move") and not t["ops"][0]["place"]["proj"]:
+                        fn_npath = s.body.npath.split("::{closure")[0]
+                        parent = next((b_ for b_ in self.unit.bodies if b_.npath == fn_npath), None)
+                        if parent is not None and any(s.body.npath in ent[3] for ent in self.fold_counters(parent)) and t["ops"][0]["place"]["l"] in self._pic.get(("foldc0", s.body.npath), ()):
+                            return "I9 counter carried in the accumulator of a fold over a slice: incremented at most once per item (at most len(slice) <= isize::MAX increments from a small constant)"
                     if aty == "usize":
                         if is_len_of(a) is not None:
                             return "I7 slice length + small constant (lengths are <= isize::MAX)"
@@ -776,6 +781,12 @@ class Discharger:
                         sl = self.slice_loop_counter(mir, S, v_[1])
                         if sl is not None and canon(sl) == ln[3][0]:
                             c2.append((("binop", "Le", v_, ln), True, src[4]))
+                    # field j of the accumulator of a counted fold over the cursor's own remaining slice (I9b)
+                    for x_ in list(sym.walk(k2)):
+                        fc = self._fold_counter_of(s.body, x_)
+                        if fc is not None and fc[0][4] == 0 and canon(self.expand(S, fc[0][2])) == ln[3][0]:
+                            c2.append((("binop", "Le", x_, ln), True, src[4]))
+                            c2.append((("binop", "Le", _A.untry(x_), ln), True, src[4]))
                     if fresh:
                         F = _A.build(c2, [ln, k2], lambda e: self.expand(S, e), unsigned=[k2], stable=lambda a: True)
                         if F.proves_ge(ln, _A.untry(k2), 1):
@@ -1241,6 +1252,169 @@ class Discharger:
                         self._pic.setdefault(("closures", body.npath), set()).add(cbody.path)
         self._pic[key] = out
         return out
+
+    # ---- I9b: a counter carried in the accumulator of fold / try_fold over a slice ---------------------------------------------
+    def fold_counters(self, body):
+        """[(block of the fold call, j, slice expression, {paths of the closure and the closures nested in it})] for every
+        `chain.fold(init, f)` / `chain.try_fold(init, f)` in `body` where chain is a chain of non-expanding adaptors over
+        `X.iter()`, init is a tuple whose field j is a small constant, and every accumulator value f can produce carries in
+        field j either the incoming accumulator's field j or that value + 1: f runs at most once per element of X, so field j
+        of the result is at most init.j + len(X). (That f's results are built only from the tuples f and its nested closures
+        construct rests on parametricity of the Option / Result combinators of core, the only calls allowed to carry one.)"""
+        key = ("foldc", body.npath)
+        if not hasattr(self, "_pic"):
+            self._pic = {}
+        if key in self._pic:
+            return self._pic[key]
+        out = []
+        mir = body.mir
+        S = self.S(mir)
+        for bi in sorted(mir.live_blocks()):
+            t = mir.blocks[bi]["term"]
+            if t["k"] != "call" or len(t["args"]) != 3:
+                continue
+            cname = facts.strip_generics(t["callee"].get("path", ""))
+            if not (cname.startswith("core::iter::") and cname.split("::")[-1] in ("fold", "try_fold")):
+                continue
+            base = self._slice_root(S, sym.norm(S.operand(t["args"][0])))
+            init = self.expand(S, sym.norm(S.operand(t["args"][1])))
+            clo = self.expand(S, sym.norm(S.operand(t["args"][2])))
+            if base is None or init[0] != "aggr" or init[1] != "tuple" or clo[0] != "closure":
+                continue
+            cdef = clo[1]
+            cbody = next((c for c in self.unit.bodies if c.kind == "Closure" and (facts.strip_generics(c.path) == facts.strip_generics(cdef) or c.path == cdef or c.path.endswith(cdef.split("::", 1)[-1]))), None)
+            if cbody is None or len(cbody.mir.locals) < 3:
+                continue
+            family = [c for c in self.unit.bodies if c.kind == "Closure" and (c.npath == cbody.npath or c.npath.startswith(cbody.npath + "::"))]
+            for j, f in enumerate(init[-1]):
+                if not (f[0] == "int" and f[2] in ("usize", "u32", "u64") and 0 <= f[1] <= 65536):
+                    continue
+                if self._acc_field_counts(cbody, family, j):
+                    out.append((bi, j, base, {c.npath for c in family}, f[1]))
+        self._pic[key] = out
+        return out
+
+    def _acc_field_counts(self, cbody, family, j):
+        tacc = cbody.mir.locals[2]["ty"]
+        if not tacc.startswith("("):
+            return False
+        # capture classes handed from a closure to the closures it creates: {closure npath: {capture index: "p0"|"c0"|"c1"}}
+        captures = {cbody.npath: {}}
+        c0_locals = {}
+        order = sorted(family, key=lambda c: c.npath.count("::"))
+        built = 0
+        for c in order:
+            if c.npath not in captures:
+                return False          # a nested closure that is created somewhere we did not see
+            cm = c.mir
+            cap = captures[c.npath]
+            cls = {}                   # local -> "c0" (acc.j) | "c1" (acc.j + 1) | "p0" (&acc.j) | "t1" (checked acc.j + 1)
+            nass = {}
+            for bi in cm.live_blocks():
+                for st in cm.blocks[bi]["stmts"]:
+                    if st["k"] == "assign" and not st["place"]["proj"]:
+                        nass[st["place"]["l"]] = nass.get(st["place"]["l"], 0) + 1
+                t = cm.blocks[bi]["term"]
+                if t["k"] == "call" and t.get("dest") and not t["dest"]["proj"]:
+                    nass[t["dest"]["l"]] = nass.get(t["dest"]["l"], 0) + 1
+            changed = True
+            rounds = 0
+            while changed and rounds < 10:
+                changed = False
+                rounds += 1
+                for bi in cm.live_blocks():
+                    for st in cm.blocks[bi]["stmts"]:
+                        if st["k"] != "assign" or st["place"]["proj"] or st["place"]["l"] in cls or nass.get(st["place"]["l"]) != 1:
+                            continue
+                        rv, k_ = st["rv"], None
+                        if rv["k"] == "use" and rv["a"]["k"] in ("copy", "move"):
+                            pl = rv["a"]["place"]
+                            pj = [(p_["k"], p_.get("i")) for p_ in pl["proj"]]
+                            if c is cbody and pl["l"] == 2 and pj == [("field", j)]:
+                                k_ = "c0"
+                            elif not pj and cls.get(pl["l"]) in ("c0", "c1", "p0"):
+                                k_ = cls[pl["l"]]
+                            elif pj == [("deref", None)] and cls.get(pl["l"]) == "p0":
+                                k_ = "c0"
+                            elif pj == [("field", 0)] and cls.get(pl["l"]) == "t1":
+                                k_ = "c1"
+                            elif pl["l"] == 1 and pj and pj[-1][0] == "field" and pj[-1][1] in cap and all(x[0] == "deref" for x in pj[:-1]):
+                                k_ = cap[pj[-1][1]]
+                        elif rv["k"] == "ref" and not rv.get("mut") and not rv["place"]["proj"] and cls.get(rv["place"]["l"]) == "c0":
+                            k_ = "p0"
+                        elif rv["k"] == "binop" and rv["op"] in ("AddWithOverflow", "Add", "AddUnchecked") and rv["a"]["k"] in ("copy", "move") and not rv["a"]["place"]["proj"] \
+                                and cls.get(rv["a"]["place"]["l"]) == "c0" and rv["b"]["k"] == "const" and str(rv["b"]["c"].get("int")) == "1":
+                            k_ = "t1" if rv["op"] == "AddWithOverflow" else "c1"
+                        if k_ is not None:
+                            cls[st["place"]["l"]] = k_
+                            changed = True
+            c0_locals[c.npath] = {l_ for l_, k_ in cls.items() if k_ == "c0"}
+            for bi in cm.live_blocks():
+                for st in cm.blocks[bi]["stmts"]:
+                    if st["k"] != "assign":
+                        continue
+                    pl, rv = st["place"], st["rv"]
+                    lty = cm.locals[pl["l"]]["ty"] if pl["l"] < len(cm.locals) else ""
+                    if pl["proj"]:
+                        if tacc in lty:
+                            return False          # a write into part of a value that holds an accumulator
+                        continue
+                    if rv["k"] == "aggr" and rv.get("agg") == "closure":
+                        sub = next((x for x in family if facts.strip_generics(x.path) == facts.strip_generics(rv["def"]) or x.path == rv["def"] or x.path.endswith(rv["def"].split("::", 1)[-1])), None)
+                        if sub is None:
+                            return False
+                        captures[sub.npath] = {i: cls[f["place"]["l"]] for i, f in enumerate(rv["fields"]) if f["k"] in ("copy", "move") and not f["place"]["proj"] and cls.get(f["place"]["l"]) in ("p0", "c0", "c1")}
+                        continue
+                    if lty == tacc:
+                        if rv["k"] == "aggr" and rv.get("agg") == "tuple" and len(rv["fields"]) > j:
+                            f = rv["fields"][j]
+                            if not (f["k"] in ("copy", "move") and not f["place"]["proj"] and cls.get(f["place"]["l"]) in ("c0", "c1")):
+                                return False
+                            built += 1
+                        elif rv["k"] == "use" and rv["a"]["k"] in ("copy", "move") and (cm.locals[rv["a"]["place"]["l"]]["ty"] == tacc or tacc in cm.locals[rv["a"]["place"]["l"]]["ty"]):
+                            pass                  # moved out of another accumulator-carrying value
+                        else:
+                            return False
+                    elif tacc in lty:
+                        ok = rv["k"] == "use" and rv["a"]["k"] in ("copy", "move") and tacc in cm.locals[rv["a"]["place"]["l"]]["ty"]
+                        ok = ok or (rv["k"] == "aggr" and rv.get("agg") == "adt" and (rv.get("adt") or "").split("::")[-1] in ("Option", "Result", "ControlFlow")
+                                    and all(f["k"] in ("copy", "move") and not f["place"]["proj"] and tacc in cm.locals[f["place"]["l"]]["ty"] for f in rv["fields"] if f["k"] != "const"))
+                        if not ok:
+                            return False
+            for bi in cm.live_blocks():
+                t = cm.blocks[bi]["term"]
+                if t["k"] == "call" and t.get("dest") is not None:
+                    dl = t["dest"]["l"]
+                    dty = cm.locals[dl]["ty"] if dl < len(cm.locals) else ""
+                    if tacc in dty:
+                        path = facts.strip_generics(t["callee"].get("path", ""))
+                        if not path.startswith(("core::option::Option::", "core::result::Result::", "core::ops::Try::", "core::ops::FromResidual::", "core::ops::ControlFlow::")):
+                            return False
+        if built >= 1:
+            for n_, ls in c0_locals.items():
+                self._pic.setdefault(("foldc0", n_), set()).update(ls)
+        return built >= 1
+
+    def _fold_counter_of(self, body, e):
+        """(fold entry, call expression) when `e` is field j of the value a counted fold / try_fold returns (directly, or
+        unwrapped by `?` / a match on Ok / Some / Continue)"""
+        if not (isinstance(e, tuple) and e and e[0] == "field" and str(e[2]).isdigit()):
+            return None
+        x = e[1]
+        for _ in range(8):
+            if x[0] == "field" and str(x[2]) == "0":
+                x = x[1]
+            elif x[0] == "downcast":
+                x = x[1]
+            elif x[0] == "call" and x[1].endswith("Try::branch") and x[3]:
+                x = x[3][0]
+            else:
+                break
+        if x[0] == "call" and x[1].split("::")[-1] in ("fold", "try_fold"):
+            for ent in self.fold_counters(body):
+                if ent[0] == x[4] and ent[1] == int(e[2]):
+                    return ent, x
+        return None
 
     def _closure_only_increments(self, cbody, k):
         """every write the closure makes through its k-th capture (a `&mut` integer) is `*p = *p + 1`"""
